@@ -803,7 +803,8 @@ def install(E):
     @reg("__cxa_rethrow")
     def rethrow(E, st, fr, ins, a):
         if not st.caught:
-            raise PathEnd("terminate")
+            # "throw;" with no exception in flight: std::terminate - fatal for the process, reported like an invalid access
+            raise S.MemError("std::terminate: rethrow ('throw;') with no exception in flight")
         st.exc = st.caught[-1]
         return S.THROWN
 
@@ -814,7 +815,7 @@ def install(E):
     @reg("__clang_call_terminate", "_ZSt9terminatev", "__cxa_call_unexpected", "__cxa_pure_virtual")
     def terminate(E, st, fr, ins, a):
         st.trace.append(("terminate",))
-        raise PathEnd("terminate")
+        raise S.MemError("std::terminate called (process would abort)")
     terminate.override = True
 
     @reg("__cxa_atexit")
@@ -845,6 +846,32 @@ def install(E):
             st.trace.append(("throw", tiname))
             return S.THROWN
         return f
+    def std_exc_ctor(E, st, fr, ins, a):
+        # std::logic_error / runtime_error family built from a C string or std::string: the object keeps the message pointer
+        # and gets a model vtable (destructors, what())
+        vt = st.user.get("std_exc_vtable")
+        if vt is None:
+            o = E.new_obj(st, 64, name="vtable(std exception model)", zero=True, kind="global")
+            o.cells[16] = (Ptr("@vf_std_exc_dtor", 0), 8)
+            o.cells[24] = (Ptr("@vf_std_exc_dtor", 0), 8)
+            o.cells[32] = (Ptr("@vf_std_exc_what", 0), 8)
+            vt = o.id
+            st.user["std_exc_vtable"] = vt
+        E.store(st, Ptr(a[0].obj, a[0].off), ir.I8P, Ptr(vt, 16))
+        msg = a[1] if len(a) > 1 and isinstance(a[1], Ptr) else Ptr(0, 0)
+        if len(a) > 1 and "basic_string" in ins.text.split("(")[0]:
+            msg = E.load(st, a[1], ir.I8P)          # std::string argument: its character pointer
+        E.store(st, Ptr(a[0].obj, E.padd(a[0].off, 8)), ir.I8P, msg)
+        return None
+    X["vf_std_exc_dtor"] = lambda E, st, fr, ins, a: None
+    X["vf_std_exc_what"] = lambda E, st, fr, ins, a: E.load(st, Ptr(a[0].obj, E.padd(a[0].off, 8)), ir.I8P)
+    for cls in ("St16invalid_argument", "St12length_error", "St12out_of_range", "St11logic_error", "St13runtime_error",
+                "St12domain_error", "St11range_error", "St14overflow_error", "St15underflow_error"):
+        for cd in ("C1", "C2"):
+            X["_ZN%s%sEPKc" % (cls, cd)] = std_exc_ctor
+            X["_ZN%s%sERKNSt7__cxx1112basic_stringIcSt11char_traitsIcESaIcEEE" % (cls, cd)] = std_exc_ctor
+        for dd in ("D0", "D1", "D2"):
+            X["_ZN%s%sEv" % (cls, dd)] = lambda E, st, fr, ins, a: None
     X["_ZSt17__throw_bad_allocv"] = thrower("_ZTISt9bad_alloc")
     X["_ZSt28__throw_bad_array_new_lengthv"] = thrower("_ZTISt20bad_array_new_length")
     X["_ZSt20__throw_length_errorPKc"] = thrower("_ZTISt12length_error")
